@@ -290,14 +290,17 @@ Proof. vm_compute. repeat split; reflexivity. Qed.
 (* the correspondence check accepts faithful observations under two orders and rejects an index-for-value confusion
    (the result the code would give if class 7 were filed under position 7: only classes 3 and 1 left, F = 9/1 ...) *)
 Example check_discriminates :
-  let mk o1 o2 := {| cq_metric := P.ANOVA; cq_prec := F64;
+  let mk o1 o2 c3 := {| cq_metric := P.ANOVA; cq_prec := F64;
                      cq_batches := [[([1], [1]); ([3], [3])]; [([5], [7]); ([2], [1]); ([9], [7]); ([100], [5])]]%Z;
                      cq_variants := [ {| pv_parts := Some [3; 1; 7; 200]%Z; pv_filtered := false; pv_exact := false;
-                                         pv_obs_parts := [3; 1; 7; 200]%Z; pv_obs := Some [[o1]] |};
+                                         pv_obs_parts := [3; 1; 7; 200]%Z; pv_obs_counters := [[1; 2; 2; 0]]%Z;
+                                         pv_obs_sums := [[[3; 3; 14; 0]]]%Z; pv_obs := Some [[o1]] |};
                                       {| pv_parts := Some [7; 3; 200; 1]%Z; pv_filtered := true; pv_exact := true;
-                                         pv_obs_parts := [7; 3; 200; 1]%Z; pv_obs := Some [[o2]] |} ] |} in
-  cpart_check (mk (Fin 4172452595946195 (-50)) (Fin 4172452595946195 (-50))) = true
-  /\ cpart_check (mk (Fin 4172452595946195 (-50)) (Fin 4172452595946197 (-50))) = false      (* one ulp away where bit-identity is due *)
-  /\ cpart_check (mk (Fin 4172452595946195 (-50)) (Fin 9 0)) = false
-  /\ cpart_check (mk (Fin 4172452595946195 (-50)) NaN) = false.
+                                         pv_obs_parts := [7; 3; 200; 1]%Z; pv_obs_counters := [[2; 1; 0; c3]]%Z;
+                                         pv_obs_sums := []; pv_obs := Some [[o2]] |} ] |} in
+  cpart_check (mk (Fin 4172452595946195 (-50)) (Fin 4172452595946195 (-50)) 2%Z) = true
+  /\ cpart_check (mk (Fin 4172452595946195 (-50)) (Fin 4172452595946197 (-50)) 2%Z) = false      (* one ulp away where bit-identity is due *)
+  /\ cpart_check (mk (Fin 4172452595946195 (-50)) (Fin 9 0) 2%Z) = false
+  /\ cpart_check (mk (Fin 4172452595946195 (-50)) NaN 2%Z) = false
+  /\ cpart_check (mk (Fin 4172452595946195 (-50)) (Fin 4172452595946195 (-50)) 3%Z) = false.     (* the undeclared trace counted in the last class *)
 Proof. vm_compute. repeat split; reflexivity. Qed.
